@@ -12,6 +12,8 @@ import (
 	"math"
 	"path/filepath"
 	"strconv"
+	"sort"
+	nethttp "net/http"
 	"strings"
 	"time"
 
@@ -502,26 +504,84 @@ func init() {
 			}
 		}
 		e.remoteRequests = append(e.remoteRequests, uri)
+		// the log entry: method, URL and the request headers (sorted; content type left out)
+		entry := uri
+		if rp, ok := args[1].(*value); ok && rp != nil {
+			rt := lookupNamed(fr.i.prog, "net/http", "Request")
+			rq := (*rp).(structure)
+			if m, ok := rq[fieldIndex(rt, "Method")].(string); ok {
+				entry = m + " " + entry
+			}
+			if hm, ok := rq[fieldIndex(rt, "Header")].(*omap); ok && hm != nil {
+				var hs []string
+				for _, en := range hm.ents {
+					k, _ := en.key.(string)
+					if !en.alive || k == "Content-Type" {
+						continue
+					}
+					vals := ""
+					if vs, ok := en.val.([]value); ok {
+						for i, x := range vs {
+							if i > 0 {
+								vals += ","
+							}
+							vals += concStr(x, "request header value")
+						}
+					}
+					hs = append(hs, k+"="+vals)
+				}
+				sort.Strings(hs)
+				for _, x := range hs {
+					entry += " " + x
+				}
+			}
+		}
+		e.remoteLog = append(e.remoteLog, entry)
 		page := "[]"
 		if e.remoteServed < len(e.remotePages) {
 			page = e.remotePages[e.remoteServed]
 		}
 		e.remoteServed++
+		// a scripted answer "!<status>[ <body>]" is a non-200 response
+		status := 200
+		if strings.HasPrefix(page, "!") {
+			rest := page[1:]
+			body := ""
+			if k := strings.Index(rest, " "); k >= 0 {
+				rest, body = rest[:k], rest[k+1:]
+			}
+			if n, err := strconv.Atoi(rest); err == nil {
+				status, page = n, body
+			}
+		}
 		path := fmt.Sprintf("/gosx/remote/page-%d", e.remoteServed)
 		e.fsMkdir("/gosx/remote")
 		e.files[path] = bytesVal([]byte(page))
 		respT := lookupNamed(fr.i.prog, "net/http", "Response")
 		rv := zero(respT)
 		rs := rv.(structure)
-		rs[fieldIndex(respT, "StatusCode")] = 200
-		rs[fieldIndex(respT, "Status")] = "200 OK"
+		rs[fieldIndex(respT, "StatusCode")] = status
+		rs[fieldIndex(respT, "Status")] = strconv.Itoa(status) + " " + nethttp.StatusText(status)
 		rs[fieldIndex(respT, "Header")] = makeMap(types.Typ[types.String], 0)
 		fileT := types.NewPointer(lookupNamed(fr.i.prog, "os", "File"))
 		rs[fieldIndex(respT, "Body")] = iface{fileT, box(&fileModel{path: path, readonly: true})}
 		return tuple{&rv, iface{}}
 	})
-	E("(*github.com/gojektech/heimdall/v6/httpclient.Client).Do", func(fr *frame, args []value) value {
-		return tuple{(*value)(nil), fr.i.mkError("dial tcp: network is unreachable (gosx: no network)")}
+	// (the heimdall client is interpreted from source: its retry loop runs over the modelled
+	// http.Client.Do, its backoff sleeps advance the modelled clock)
+
+	// uuid.New: a fresh identifier per call (the n-th call on a path yields bytes derived from n;
+	// contract: distinct from every earlier one)
+	E("github.com/google/uuid.New", func(fr *frame, args []value) value {
+		e := fr.i.path.env
+		e.uuids++
+		out := make(array, 16)
+		for i := range out {
+			out[i] = uint8(0)
+		}
+		out[6], out[8] = uint8(0x40), uint8(0x80)
+		out[14], out[15] = uint8(e.uuids>>8), uint8(e.uuids)
+		return out
 	})
 
 	// ---- fmt
